@@ -29,6 +29,12 @@ def deductive(check, tier):
     verify(A.new_with_atts_removed, tier, check)
     verify(A.shared_atts, tier, check)
     verify(A.copy_with_new_str, tier, check)
+    # fmtstr(text free of ESC[, **attributes): the real fmtstr with the real parse_args inlined, complete finite split over the 256
+    # sets of attribute keys with symbolic values: one run with the text and exactly those attributes; ValueError iff fg / bg is not
+    # a colour code of the tables ("sets exactly the named attributes ... mis-typed specifications raise ValueError", number form)
+    import contracts.justify as J
+    for c in J.fmtstr_kw_bodies(tier):
+        verify(c, tier, check)
 
 
 # ------------------------------------------------------------------------------ spec of parse_args (from the statement)
